@@ -46,11 +46,16 @@ Full statement / proved / missing
                        `'n'`, `Optional['n']`, `NotUndef['n']`, chosen by `StructType.Parameters` from the optionality of
                        the key and from whether the value type accepts `undef` — `Ty.acceptsUndef` —; any member name,
                        duplicate names, the empty Struct), Runtime['rt', 'name', Regexp[/…/]] (every form that prints
-                       invertibly: all but a pattern without a name — `C05_runtime_pattern_without_name`, known finding), TypeReference['…'] (every string), Callable[p…, lo, hi, block] and
+                       the creator accepts; a pattern without a name since /repo f14f4ca:
+                       `C05_runtime_pattern_without_name_repaired`),
+                       TypeReference['…'] (every string), Callable[p…, lo, hi, block] and
                        Callable[[p…, lo, hi, block], ret] in every shape that prints invertibly (`CallableShape`: see
                        below) — arbitrarily nested, all Int64 bounds, all string contents.
-                       The full statement `C05_type_roundtrip_full` (over the whole `Ty`) is false exactly at the
-                       property's stated exception: `C05_exact_string_prints_plain`.
+                       The full statement `C05_type_roundtrip_full` (over the whole `Ty`) is false: at the property's
+                       stated exception (`C05_exact_string_prints_plain`), and at a known finding of the code
+                       (degenerate Callables — witnesses below).  Every other
+                       condition of `WFTy` only says "in the normal form the creators produce" (Int64 bounds with
+                       lo ≤ hi, a Variant does not have exactly one member, …).
                        Float bounds: decimal float conversion is NOT modelled; the theorem assumes of it exactly `FloatIO`
                        per printed bound `b`: the text the formatter oracle gives (`env.ff b` = `floatGFormat "%g"`)
                        lexes as one float token and the reader oracle (`env.pf` = `strconv.ParseFloat`) maps it back to
@@ -66,9 +71,9 @@ Full statement / proved / missing
                        Modelled and compared on every run but outside the theorem's quantifier: unknown type names (they
                        resolve to a TypeReference) and the second spellings of core names — both resolve to types that are
                        inside it.
-                       Missing (no theorem and no model; direct predicate on the implementation only): Runtime, Init, Like, Object, TypeSet, aliases, TypeReference and the leaf
-                       types with parameters (known findings C05-leaf-type-params, -lazy-type, -nominal-type,
-                       -callable-block).
+                       Missing (no theorem and no model; direct predicate on the implementation only): Init[…], Like,
+                       Object, TypeSet, aliases, loadable names and the leaf types with parameters (known findings
+                       C05-leaf-type-params, -lazy-type, -nominal-type).
 -/
 namespace Pcore.Syntax
 
@@ -236,7 +241,7 @@ example : printTy (.float 4609434218613702656 "1.50000".toList 46577159732126023
 def sampleNominal : Ty :=
   .tuple [.runtime "ruby".toList [] none, .runtime "ruby".toList ['n'] none, .runtime "go".toList [] none,
           .runtime ['r'] ['n'] (some ['a', '/', 'b']), .runtime ['r'] ['n'] (some []), .runtime [] [] none,
-          .runtime [] ['x'] none, .runtime [] ['x'] (some ['a']),
+          .runtime [] ['x'] none, .runtime [] ['x'] (some ['a']), .runtime ['r'] [] (some ['a']), .runtime [] [] (some []),
           .typeRef ['M', 'y', ':', ':', 'T'], .typeRef unresolvedRef, .typeRef ['\'', '\\'], .typeRef [],
           .struct [(['c'], false, .callable none none none)]] none
 example : WFTy envEx sampleNominal := by
@@ -320,20 +325,18 @@ example : printTVal sampleTVal =
     "{Integer[1, 2] => [Struct[{'a' => Any}], '\\'\\\\', Callable[String]], 'k' => {Optional['x'] => TypeReference['My::T']}, [String, 5] => undef}".toList := by
   decide +kernel
 
-/-- outside `WFTy` for Runtime the round trip fails (known finding C05-runtime-pattern-without-name): a Runtime with a
-    pattern and an empty name prints `Runtime['r', Regexp[/a/]]`, which the creator refuses -/
-theorem C05_runtime_pattern_without_name :
-    parseType envEx (syms (printTy (.runtime ['r'] [] (some ['a'])))) = none := by
-  have hexpr : tyExpr (.runtime ['r'] [] (some ['a'])) = tname .runtime [.str ['r'], tyExpr (.regexp ['a'])] := by
-    simp [tyExpr]
-  have hlit : Lit envEx (tname .runtime [.str ['r'], tyExpr (.regexp ['a'])]) :=
-    lit_tname envEx .runtime _ ⟨trivial, lit_tyExpr envEx (.regexp ['a']) (by simp only [WFTy, envEx]; decide), trivial⟩
-  unfold parseType printTy
-  rw [hexpr, C05_value_roundtrip envEx _ hlit]
-  have hr := resolve_regexp envEx ['a']
-  simp only [resolve_tname, List.isEmpty_cons, Bool.false_eq_true, if_false, exprsOf, exprOf, resolveArgs, resolveArg,
-    resolveArg_ty, hr, Option.map, Option.bind]
-  simp [createK, runtimeCreate]
+/-- finding C05-runtime-pattern-without-name (found in this slice, repaired by /repo f14f4ca).  Before the fix
+    `RuntimeType.Parameters` left an empty name out even when a pattern followed, so `Runtime['r', '', Regexp[/a/]]` printed
+    the parameter list (runtime, pattern) — which the positional creator refuses, then as now: -/
+theorem C05_runtime_pattern_without_name_before_fix (rt src : Str) :
+    runtimeCreate [.str rt, .ty (.regexp src)] = none := by
+  simp [runtimeCreate]
+/-- … after the fix the empty name is printed when a pattern follows, and the former witness round-trips (it is inside
+    `WFTy`: a pattern no longer needs a name) -/
+theorem C05_runtime_pattern_without_name_repaired :
+    printTy (.runtime ['r'] [] (some ['a'])) = "Runtime['r', '', Regexp[/a/]]".toList ∧
+    parseType envEx (syms (printTy (.runtime ['r'] [] (some ['a'])))) = some (.runtime ['r'] [] (some ['a'])) :=
+  ⟨by decide +kernel, C05_type_roundtrip_partial envEx _ (by simp only [WFTy, envEx]; decide)⟩
 
 /-- a case-insensitive Enum with non-ASCII values: `strings.ToLower` is Go's simple case mapping (regenerated table), e.g.
     `É` ↦ `é`; values that are their own lower case are in normal form and round-trip -/
